@@ -84,7 +84,7 @@ def task(W, payload):
     r = random.Random(f"C06:{payload['seed']}:{payload['index']}")
     prog = Gen(r, Opts(max_strats=3, allow_array_pop=True, allow_requests=False, allow_computed=False, max_flows=3,
                        allow_adjust=False, allow_mixing=False, allow_inf_adjust=False, rebalance_prob=0.8,
-                       rebalance_repeat_bias=(0.6 if payload["index"] % 2 else 0.0), shuffle_split_bias=0.5, inexact_split_bias=0.3, force_strat=bool(payload["index"] % 2))).program()
+                       rebalance_repeat_bias=(0.6 if payload["index"] % 2 else 0.0), shuffle_split_bias=0.5, inexact_split_bias=0.3, shuffle_strat_comps_bias=0.4, force_strat=bool(payload["index"] % 2))).program()
     S = fresh_session(W)
     out = mk_out(prog)
     if not S.build(prog["build"]):
